@@ -46,8 +46,10 @@ func malformedCandidates(op *rm.Op) [][2]int {
 		switch f.Kind {
 		case rm.Bool:
 			out = append(out, [2]int{f.Offset, 0x02})
-		case rm.SysDate, rm.SysTime:
-			out = append(out, [2]int{f.Offset, 0xaa})
+		case rm.SysDate:
+			out = append(out, [2]int{f.Offset, 0xaa}, [2]int{f.Offset + 1, 0x13}) // non-decimal nibble; month 13
+		case rm.SysTime:
+			out = append(out, [2]int{f.Offset, 0xaa}, [2]int{f.Offset, 0x24}, [2]int{f.Offset + 1, 0x60}, [2]int{f.Offset + 2, 0x60}) // non-decimal; 24:mm:ss; minute 60; second 60
 		case rm.DateTime:
 			out = append(out, [2]int{f.Offset + 1, 0x2a}, [2]int{f.Offset + 4, 0xb3})
 		}
